@@ -29,6 +29,7 @@ func init() {
 	wrap("C18", c18Extra, "R8 (added): inside persist the only file ever removed is the temp file — the destination is replaced by rename alone, never unlinked first.")
 	wrap("C19", c19Extra, "R6 (added): ClampScope applies BOTH clamps on every path — the prefix length handed to Prefix() has passed the comparison with the forwarded source length and, for the address family at hand, the comparison with the configured minimum scope.")
 	wrap("C20", c20Extra, "R7 (added): negativeAAAATTL is min(SOA TTL, SOA MINIMUM): the MINIMUM replaces the TTL only behind Minttl < ttl.")
+	wrap("C11", c11Extra, "R7 (added): the fresh-clock entry Server.serveMsg (deadline = time.Now()+timeout) is used only by the message-born ingress ServeMsg; every raw/strict entry reaches the chain through serveMsgBy with its arrival-anchored deadline.")
 	wrap("C14", c14Extra, "R5 (added): the raw RSA verifier compares the recovered encoding at full modulus width — both ConstantTimeCompare operands have length = the modulus size by construction (a fresh make(size) buffer or FillBytes into one), never the zero-stripped big.Int bytes.")
 	wrap("C02", c02Extra, "R9 (added): the aggressive-NSEC closest encloser is derived from BOTH names of the covering record (shared-suffix count with owner and with next, the larger of the two), as RFC 8198/4035 require.")
 	wrap("C13", c13Extra, "R8 (added): a stored failure is turned into a hit (failureEntry.hit) only behind now.Before(<that entry>.retryAfter) — on the Msg and the wire lookup alike — so suppression ends with the backoff.")
@@ -865,6 +866,35 @@ func c05R11static(c *Ctx) {
 			c.ok(R, key, sfd.Pos(), "library rejects ["+k+"], so does strict admission")
 		} else {
 			c.violation(R, key, sfd.Pos(), "the library refuses ["+k+"] (the decoded path answers FORMERR) but strict admission lets the packet through: the two ingress paths disagree on which packets are refused")
+		}
+	}
+}
+
+func c11Extra(c *Ctx) {
+	c.Doc("C11-R7", "(*Server).serveMsg — the only place that anchors a request deadline at time.Now() — is called only from (*Server).ServeMsg; the raw entry points (ServeRaw, ServeRawInline, ServeRawReplay and their fallbacks) must hand serveMsgBy the deadline derived from the packet's read time, so time spent queued is not handed back as fresh budget")
+	sm := c.fobj("C11-R7", "server.(*Server).serveMsg")
+	if sm == nil {
+		return
+	}
+	c.WhoMay("C11-R7", "Server.serveMsg (fresh clock)", c.CallSites(sm), map[string]string{
+		"(*server.Server).ServeMsg": "message-born ingress (DoH/DoQ/embedders): arrival time is now",
+	})
+	// and serveMsg itself is the only function in package server that builds a deadline from time.Now()
+	now := c.fobj("C11-R7", "time.Now")
+	smb := c.fobj("C11-R7", "server.(*Server).serveMsgBy")
+	if now == nil || smb == nil {
+		return
+	}
+	for _, s := range c.CallSites(smb) {
+		key := "C11-R7|" + fnKey(TopLevel(s.Fn)) + "|serveMsgBy deadline"
+		d := Desc(callArg(s.Instr, 5))
+		usesNow := Contains(CallTo(now))(d)
+		isFresh := fnKey(TopLevel(s.Fn)) == "(*server.Server).serveMsg"
+		switch {
+		case usesNow && !isFresh:
+			c.violation("C11-R7", key, instrPos(s.Instr), "a raw entry point anchors the request deadline at time.Now() instead of the packet's read time")
+		default:
+			c.ok("C11-R7", key, instrPos(s.Instr), "deadline: "+trunc(d.String(), 120))
 		}
 	}
 }
